@@ -46,6 +46,10 @@ type Spec struct {
 	// InPlace (with StopAt): the two sessions apply in place, each with a brand-new overlay bowl (a bowl that
 	// has state to lose between sessions) onto a copy of the old build
 	InPlace bool `json:"in_place,omitempty"`
+	// DropAtResume (with StopAt, fresh bowls only): the second session's whitelist no longer has the file the
+	// checkpoint was taken in (the caller changed its mind about that file while the process was down). That
+	// file is then nobody's business; every other selected file must come out exactly, none other be touched.
+	DropAtResume bool `json:"drop_at_resume,omitempty"`
 }
 
 type recBowl struct {
@@ -289,10 +293,27 @@ func stopAndResume(s Spec, oldTree h.Tree, patch []byte, od, out string, wl, giv
 	calls := map[int64]int{}
 	var touched int64
 	var ck []byte
+	dropped := int64(-1)
 	for session := 0; session < 2; session++ {
 		p, err := patcher.New(h.Source(patch), h.Quiet())
 		if err != nil {
 			return fmt.Sprintf("patcher.New: %v", err)
+		}
+		if session == 1 && s.DropAtResume && !s.InPlace && dropped < 0 {
+			pc := &patcher.Checkpoint{}
+			if err := gob.NewDecoder(bytes.NewReader(ck)).Decode(pc); err == nil && wl[pc.FileIndex] && len(wl) > 1 {
+				dropped = pc.FileIndex
+				g2 := map[int64]bool{}
+				for k, v := range given {
+					g2[k] = v
+				}
+				for k := range wl {
+					g2[k] = true // an absent or empty map means "all files": spell the selection out
+				}
+				delete(g2, dropped)
+				given = g2
+				*cl = append(*cl, "whitelist:file-in-progress-dropped-at-resume")
+			}
 		}
 		p.SetSourceIndexWhitelist(given)
 		st := &stopper{stopAt: -1}
@@ -330,6 +351,14 @@ func stopAndResume(s Spec, oldTree h.Tree, patch []byte, od, out string, wl, giv
 		}
 		err = p.Resume(c, rp, rb)
 		stopped := errors.Cause(err) == patcher.ErrStop
+		if err != nil && !stopped && dropped >= 0 {
+			// a whitelist that changes between the sessions of one application is not among the subsets the
+			// statement quantifies over: a refusal is no verdict (unchanged wharf refuses when the checkpoint lies
+			// inside a bsdiff series, whose header skipFile expects to read); only a nil with wrong files is judged
+			rb.Close()
+			*cl = append(*cl, "whitelist:resume-without-the-file-in-progress-refused")
+			return ""
+		}
 		if err != nil && !stopped {
 			rb.Close()
 			return fmt.Sprintf("whitelisted application, session %d (stop at checkpoint %d): %v", session, s.StopAt, err)
@@ -363,11 +392,15 @@ func stopAndResume(s Spec, oldTree h.Tree, patch []byte, od, out string, wl, giv
 		ck = st.ck
 		*cl = append(*cl, "whitelist:stopped-and-resumed")
 	}
-	if touched != int64(len(wl)) {
-		return fmt.Sprintf("stop/resume with a whitelist: sessions report %d touched files in total, the whitelist has %d", touched, len(wl))
+	wantTouched := int64(len(wl))
+	if dropped >= 0 {
+		wantTouched-- // stopped inside it (or right before it), then skipped
+	}
+	if touched != wantTouched {
+		return fmt.Sprintf("stop/resume with a whitelist: sessions report %d touched files in total, the whitelist has %d (file dropped at resume: %d)", touched, len(wl), dropped)
 	}
 	for i, f := range dp.New.Files {
-		if !wl[int64(i)] {
+		if !wl[int64(i)] || int64(i) == dropped {
 			continue
 		}
 		got, err := os.ReadFile(filepath.Join(out, filepath.FromSlash(f.Path)))
@@ -412,6 +445,7 @@ var prop = h.Prop[Spec]{
 		if rapid.IntRange(0, 2).Draw(t, "stop-and-resume") == 0 {
 			s.StopAt = rapid.IntRange(1, 4).Draw(t, "stop-at")
 			s.InPlace = rapid.IntRange(0, 2).Draw(t, "in-place") == 0
+			s.DropAtResume = !s.InPlace && rapid.IntRange(0, 2).Draw(t, "drop-at-resume") == 0
 			// a multi-block, multi-edit file first in the new build, so that checkpoints are offered inside it
 			oc := h.Content{{Src: 20, Len: rapid.IntRange(3, 8).Draw(t, "big-blocks")*h.BS + 77}}
 			nc := h.EditContent(t, oc, rapid.IntRange(3, 8).Draw(t, "big-edits"), nil)
